@@ -36,6 +36,9 @@ Section ExprInd.
   Hypothesis HCall : forall f args, Forall P args -> P (ECall f args).
   Hypothesis HIdx : forall a i, P a -> P i -> P (EIndex a i).
   Hypothesis HSl : forall a, P a -> P (ESliceAll a).
+  Hypothesis HVarK : forall x k t, P (EVarK x k t).
+  Hypothesis HSel : forall x f k t, P (ESel x f k t).
+  Hypothesis HConst : forall x cv, P (EConst x cv).
   Fixpoint expr_ind' (e : expr) : P e :=
     match e with
     | EIdent x t => HId x t
@@ -51,6 +54,9 @@ Section ExprInd.
                          end) args)
     | EIndex a i => HIdx a i (expr_ind' a) (expr_ind' i)
     | ESliceAll a => HSl a (expr_ind' a)
+    | EVarK x k t => HVarK x k t
+    | ESel x f k t => HSel x f k t
+    | EConst x v => HConst x v
     end.
 End ExprInd.
 
@@ -70,6 +76,26 @@ Proof.
   - intros H. apply prim_eqb_eq in H. congruence.
 Qed.
 
+Lemma vkind_eqb_eq a b : vkind_eqb a b = true -> a = b.
+Proof. destruct a, b; simpl; try discriminate; auto. intros H. apply String.eqb_eq in H. congruence. Qed.
+Lemma fl_eqb_eq a b : fl_eqb a b = true -> a = b.
+Proof.
+  destruct a as [|x|[pn pd]], b as [|y|[qn qd]]; simpl; try discriminate; auto.
+  - intros H. apply Bool.eqb_prop in H. congruence.
+  - intros H. apply andb_true_iff in H as [H1 H2]. apply Z.eqb_eq in H1. apply Pos.eqb_eq in H2. congruence.
+Qed.
+Lemma value_eqb_eq a b : value_eqb a b = true -> a = b.
+Proof.
+  destruct a, b; simpl; try discriminate; intros H.
+  - apply Z.eqb_eq in H. congruence.
+  - apply fl_eqb_eq in H. congruence.
+  - apply String.eqb_eq in H. congruence.
+  - apply String.eqb_eq in H. congruence.
+  - apply Bool.eqb_prop in H. congruence.
+  - apply (list_eqb_eq Z.eqb Z.eqb_eq) in H. congruence.
+  - apply Z.eqb_eq in H. congruence.
+Qed.
+
 Lemma expr_eqb_eq : forall a b, expr_eqb a b = true -> a = b.
 Proof.
   induction a using expr_ind'; intros b Hb; destruct b; simpl in Hb; try discriminate.
@@ -85,6 +111,11 @@ Proof.
     apply andb_true_iff in H2 as [H2 H3]. f_equal; auto.
   - apply andb_true_iff in Hb as [H1 H2]. f_equal; auto.
   - f_equal; auto.
+  - apply andb_true_iff in Hb as [H1 H3]. apply andb_true_iff in H1 as [H1 H2].
+    apply String.eqb_eq in H1. apply vkind_eqb_eq in H2. apply ty_eqb_eq in H3. congruence.
+  - apply andb_true_iff in Hb as [H1 H4]. apply andb_true_iff in H1 as [H1 H3]. apply andb_true_iff in H1 as [H1 H2].
+    apply String.eqb_eq in H1. apply String.eqb_eq in H2. apply vkind_eqb_eq in H3. apply ty_eqb_eq in H4. congruence.
+  - apply andb_true_iff in Hb as [H1 H2]. apply String.eqb_eq in H1. apply value_eqb_eq in H2. congruence.
 Qed.
 
 (* ---------- evaluation of argument lists ---------- *)
@@ -164,7 +195,12 @@ Lemma prim_apply_typed p vs v t :
 Proof.
   destruct p; simpl;
     repeat (let x := fresh "x" in destruct vs as [|x vs]; simpl; try discriminate; try destruct x; simpl; try discriminate);
-    intros H1 H2; inversion H1; inversion H2; reflexivity.
+    intros H1 H2;
+    repeat match goal with
+           | H : context [if ?c then _ else _] |- _ => destruct c
+           | H : option_map _ ?x = Some _ |- _ => destruct x; simpl in H
+           end; try discriminate;
+    inversion H1; inversion H2; reflexivity.
 Qed.
 
 Lemma index_apply_typed a i v : index_apply a i = Some (RVal v) -> vty v = TInt.
@@ -238,6 +274,9 @@ Proof.
     assert (vty v1 = t0).
     { simpl in Ht. destruct (typeof e) as [[]|] eqn:T; try discriminate; inversion Ht; subst; eapply IHe; eauto. }
     destruct v1; simpl in Hv; try discriminate; inversion Hv; subst; first [assumption|reflexivity].
+  - simpl in *. inversion Ht; inversion Hv; subst. apply Hen.
+  - simpl in *. destruct (nilp en x); [discriminate|]. inversion Ht; inversion Hv; subst. apply Hen.
+  - simpl in *. inversion Ht; inversion Hv; subst. reflexivity.
 Qed.
 
 (* ---------- side-effect-free expressions: no events, result independent of the history ---------- *)
@@ -246,7 +285,7 @@ Definition pure_at (en : env) (e : expr) : Prop := exists r : option outcome, fo
 (* no opaque call anywhere: the common core of the purity notions of the tools *)
 Fixpoint no_opaque (e : expr) : bool :=
   match e with
-  | EIdent _ _ | ELit _ _ _ => true
+  | EIdent _ _ | ELit _ _ _ | EVarK _ _ _ | ESel _ _ _ _ | EConst _ _ => true
   | EParen x | EUnary _ x | ESliceAll x => no_opaque x
   | EBinary _ l r => no_opaque l && no_opaque r
   | EIndex a i => no_opaque a && no_opaque i
@@ -336,6 +375,10 @@ Proof.
     + exists (slice_all_apply v). intros h. simpl. rewrite Hr. reflexivity.
     + exists (Some RPanic). intros h. simpl. rewrite Hr. reflexivity.
     + exists None. intros h. simpl. rewrite Hr. reflexivity.
+  - eexists (Some _); intros h; reflexivity.
+  - exists (if nilp en x then Some RPanic else Some (RVal (vars en (x ++ "." ++ f) t))); intros h; simpl.
+    destruct (nilp en x); reflexivity.
+  - eexists (Some _); intros h; reflexivity.
 Qed.
 
 
